@@ -145,6 +145,12 @@ def run(repo, chk):
     from . import c05
     c05.run(repo, Remap(chk, {'C05.G4': 'C04.A3', 'C05.G5': 'C04.A3', 'C05.G2': 'C04.A3'}))
 
+    # ---------------- A8 saved try context ---------------------------------------------------
+    chk.rule('C04.A8', 'the stop handler restores fp from try_fp BEFORE it reloads ap from the fp-relative save slot (otherwise ap is '
+                       'loaded from a slot of whatever frame defeat happened in) - shared with C02.T2')
+    from . import c02
+    c02.run(repo, Remap(chk, {'C02.T2': 'C04.A8'}))
+
     # ---------------- A4 scale agreement ---------------------------------------------------
     _scale(repo, chk, gf)
 
